@@ -397,25 +397,34 @@ func mutateStep64(c *Ctx, bm *BM64, full bool) string {
 		}
 	case "AddRange":
 		s, e := genRange64(r, m, full)
+		empty := emptyRange(r, &s, &e)
 		c.Step("AddRange(%d,%d)", s, e)
 		c.Guard(sig, func() { b.AddRange(s, e) })
-		m.AddRange(s, e-1)
+		if !empty {
+			m.AddRange(s, e-1)
+		}
 	case "RemoveRange":
 		s, e := genRange64(r, m, true, true)
+		empty := emptyRange(r, &s, &e)
 		c.Step("RemoveRange(%d,%d)", s, e)
 		c.Guard(sig, func() { b.RemoveRange(s, e) })
-		m.RemoveRange(s, e-1)
+		if !empty {
+			m.RemoveRange(s, e-1)
+		}
 	case "Flip":
 		s, e := genRange64(r, m, full)
+		empty := emptyRange(r, &s, &e)
 		c.Step("Flip(%d,%d)", s, e)
 		c.Guard(sig, func() {
-			if e <= 1<<62 && r.Chance(0.3) {
+			if e <= 1<<62 && s <= 1<<62 && r.Chance(0.3) {
 				b.FlipInt(int(s), int(e))
 			} else {
 				b.Flip(s, e)
 			}
 		})
-		m.FlipRange(s, e-1)
+		if !empty {
+			m.FlipRange(s, e-1)
+		}
 	case "Clear":
 		c.Step("Clear()")
 		c.Guard(sig, func() { b.Clear() })
